@@ -36,7 +36,7 @@ def belongs(prop, v, run):
         if not ex.endswith("tsm"):
             return False
         # exactly-once is the sum component; the position-code-sensitive component belongs to C02's clauses
-        return (cls == "ref" and site == "result.sum") or (cls == "calllog" and site == "P2PInner.tsm") or cls in ("writeset", "symbolic-changed")
+        return (cls == "ref" and site in ("result.sum", "particles-missing")) or (cls == "calllog" and site == "P2PInner.tsm") or cls in ("writeset", "symbolic-changed")
     if prop == "C12":
         return cls in ("staged-vs-full", "writeset", "calllog", "symbolic-changed")
     if prop == "C13":
